@@ -6,6 +6,7 @@ A case is JSON-able: {"op", "inputs": [{"shape","chunks","dtype","kind"}], "para
 from __future__ import annotations
 
 import itertools
+import json
 
 import numpy as np
 
@@ -576,7 +577,7 @@ reg("matrix_transpose", lambda tier: (([inp(s, c)], {}) for s, c in geoms(2, D(t
 def gen_repeat(tier):
     for shape, chunks in geoms(1, D(tier)) + geoms(2, SD if tier == "quick" else QD):
         for ax in list(range(len(shape))) + ([None] if len(shape) == 1 else []):
-            for r in (1, 2, 3):
+            for r in (0, 1, 2, 3):
                 yield [inp(shape, chunks)], dict(repeats=r, axis=ax)
 
 
@@ -585,7 +586,7 @@ reg("repeat", gen_repeat, lambda xs, p: xp().repeat(xs[0], p["repeats"], axis=p[
 
 def gen_tile(tier):
     for shape, chunks in geoms(1, SD) + geoms(2, SD):
-        for reps in ([1], [2], [3], [2, 1], [1, 2], [2, 3], [2, 1, 2]):
+        for reps in ([1], [2], [3], [2, 1], [1, 2], [2, 3], [2, 1, 2], [0], [0, 2], [2, 0], [1, 0, 1], [-1]):
             yield [inp(shape, chunks)], dict(reps=reps)
 
 
@@ -731,6 +732,31 @@ def gen_index(tier):
         yield [inp(shape, chunks)], dict(key=[dict(arr=[1, 0]), dict(slice=[None, None, None]), 0])
 
 
+def gen_index_newaxis(tier):
+    """every placement of one or two new axes among integer / slice / ellipsis entries"""
+    full, tail = dict(slice=[None, None, None]), dict(slice=[1, None, None])
+    new, ell = dict(new=1), dict(ell=1)
+    for nd, gs in ((2, [((3, 4), (2, 3)), ((4, 4), (1, 2))]), (3, [((2, 3, 4), (1, 2, 3))] + ([((3, 2, 3), (2, 2, 2))] if tier == "thorough" else []))):
+        for shape, chunks in gs:
+            seen = set()
+            for base in itertools.product([full, 1, tail, -1], repeat=nd):
+                if tier == "quick" and sum(1 for b in base if b == -1) > 1:
+                    continue
+                pos = list(range(nd + 1))
+                places = [(a,) for a in pos] + [(a, b) for a in pos for b in pos if a <= b]
+                for pl in places:
+                    key = list(base)
+                    for off, a in enumerate(sorted(pl)):
+                        key.insert(a + off, new)
+                    k = json.dumps(key)
+                    if k not in seen:
+                        seen.add(k)
+                        yield [inp(shape, chunks)], dict(key=key)
+            for key in ([ell, new, 1], [1, ell, new], [new, ell, 1], [ell, 1, new], [ell, new], [new, ell], [full, new, ell, 0], [ell, new, tail, 1], [0, new, ell, new, 1]):
+                yield [inp(shape, chunks)], dict(key=key)
+
+
+reg("getitem_newaxis", gen_index_newaxis, lambda xs, p: xs[0][_key(p)], lambda ns, p: ns[0][_key(p)], group="index")
 reg("getitem", gen_index, lambda xs, p: xs[0][_key(p)], lambda ns, p: ns[0][_key(p)], group="index")
 
 
@@ -1079,6 +1105,13 @@ def gen_map_blocks(tier):
         yield [inp(shape, chunks)], dict(mode="plain")
         if len(shape) == 2:
             yield [inp(shape, chunks)], dict(mode="drop_axis")
+            # the dropped axis given as 0 / negative / a list; with several blocks along it (single=False) the request must be refused
+            for drop in (0, -1, -2, [1], [-1]):
+                yield [inp(shape, chunks)], dict(mode="drop_axis", drop=drop)
+            for drop in (1, -1, 0):
+                yield [inp(shape, chunks)], dict(mode="drop_axis", drop=drop, single=False)
+            yield [inp(shape, chunks)], dict(mode="new_axis", new=2)
+            yield [inp(shape, chunks)], dict(mode="new_axis", new=1)
         yield [inp(shape, chunks)], dict(mode="new_axis")
         yield [inp(shape, chunks), inp(shape, chunks)], dict(mode="two")
         if shape in ((5,), (3, 5)):
@@ -1107,10 +1140,15 @@ def _mb_build(xs, p):
         return c.map_blocks(lambda a: a * 10, x, dtype=x.dtype)
     if mode == "drop_axis":
         # requires a single block along the dropped axis
-        y = x.rechunk((x.chunksize[0], x.shape[1] or 1)) if x.numblocks[1] > 1 else x
-        return c.map_blocks(lambda a: a.sum(axis=1), y, dtype=x.dtype, drop_axis=1)
+        drop = p.get("drop", 1)
+        ax = (drop[0] if isinstance(drop, list) else drop) % 2
+        y = x
+        if p.get("single", True) and x.numblocks[ax] > 1:
+            y = x.rechunk(tuple((x.shape[k] or 1) if k == ax else x.chunksize[k] for k in range(2)))
+        return c.map_blocks(lambda a: a.sum(axis=ax), y, dtype=x.dtype, drop_axis=drop)
     if mode == "new_axis":
-        return c.map_blocks(lambda a: a[None, ...] * 2, x, dtype=x.dtype, new_axis=0)
+        new = p.get("new", 0)
+        return c.map_blocks(lambda a: np.expand_dims(a, new) * 2, x, dtype=x.dtype, new_axis=new)
     if mode == "two":
         return c.map_blocks(lambda a, b: a - 2 * b, x, xs[1], dtype=x.dtype)
     if mode in ("numpy-first", "numpy-second"):
@@ -1129,9 +1167,10 @@ def _mb_ref(ns, p):
     if mode == "plain":
         return a * 10
     if mode == "drop_axis":
-        return a.sum(axis=1)
+        drop = p.get("drop", 1)
+        return a.sum(axis=(drop[0] if isinstance(drop, list) else drop) % 2)
     if mode == "new_axis":
-        return a[None, ...] * 2
+        return np.expand_dims(a, p.get("new", 0)) * 2
     if mode == "two":
         return a - 2 * ns[1]
     if mode in ("numpy-first", "numpy-second"):
